@@ -828,6 +828,20 @@ func streamC01(c *Ctx) {
 			runOn(src, "pathbind", pi, someInputs)
 		}
 	}
+	// (a'') third wave of systematic families (fam.go): interpolation, limit/first/until vs errors, input streams,
+	// getpath/paths/pick, $__loc__, natives inside paths, folds with empty / several outputs, depth near the bounds
+	for _, f := range familyBlocks() {
+		if quick && (f.name == "inputs0" || f.name == "inputs1") {
+			continue
+		}
+		for i, src := range f.progs {
+			if quick {
+				runOn(src, "fam-"+f.name, []any{f.ins[(i+int(c.Seed%7))%len(f.ins)]}, f.inputs)
+			} else {
+				runOn(src, "fam-"+f.name, f.ins, f.inputs)
+			}
+		}
+	}
 	// (c) + (d)
 	corpus, cskipped := loadCorpus(repo)
 	c.Stats["corpus_queries"] = len(corpus)
